@@ -16,7 +16,7 @@ pub fn check() -> Check {
         spec: CheckSpec {
             id: "C18",
             level: "exploration",
-            rule: "one case = one scenario on a store that nobody calls after the set-up writes; the shim's time-stamped log of the store directory is the observation (hint-file creation / unlinks = a merge pass ran; fsync of the active data file). Scenarios: policy never with triggers exceeded -> no merge in 10 intervals; policy always with no trigger exceeded, including dead bytes EQUAL to the trigger and fragmentation EQUAL to the trigger -> none in 10 intervals; policy always with the dead-bytes trigger or the fragmentation trigger crossed by the last set-up write at time t -> a merge by t + interval*(1+jitter) + 3 s, for interval 150-400 ms and jitter 0 / 0.3 / 1.0; policy window containing / not containing the current local hour -> as always / never; interval sync 100-300 ms on an idle open store -> consecutive fsyncs of the active file at most 2*interval + 1.5 s apart over 8 intervals, and none after close. Non-trivial/distinct = distinct (scenario kind, interval, jitter, trigger relation) combinations; observed delays and gaps are recorded.",
+            rule: "one case = one scenario on a store that nobody calls after the set-up writes; the shim's time-stamped log of the store directory is the observation (hint-file creation / unlinks = a merge pass ran; fsync of the active data file). Scenarios: policy never with triggers exceeded -> no merge in 10 intervals; policy always with no trigger exceeded, including dead bytes EQUAL to the trigger and fragmentation EQUAL to the trigger -> none in 10 intervals; policy always with the dead-bytes trigger or the fragmentation trigger crossed by the last set-up write at time t -> a merge by t + interval*(1+jitter) + 3 s, for interval 150-400 ms and jitter 0 / 0.3 / 1.0; (in half of these scenarios the first pass the background task starts fails with an injected ENOSPC and one more interval is allowed: the task has to try again); policy window containing / not containing the current local hour -> as always / never; interval sync 100-300 ms on an idle open store -> consecutive fsyncs of the active file at most 2*interval + 1.5 s apart over 8 intervals, and none after close (in half of these the first periodic fsync fails with EIO and the observation runs 2.3 s longer: the task has to go on). Non-trivial/distinct = distinct (scenario kind, interval, jitter, trigger relation) combinations; observed delays and gaps are recorded.",
             assumptions: vec![
                 "wall-clock bounds with stated slack; a timer off by less than the slack passes",
                 "window scenarios are skipped in the last two minutes of an hour",
@@ -199,7 +199,14 @@ fn scenario(ctx: &Ctx, case: u64, out: &mut Out) {
             }
         }
         "always-dead-bytes-crossed" | "always-fragmentation-crossed" | "window-containing-now" => {
-            let bound_ms = max_sleep_ms + 3000;
+            // half of these: the first pass the background task starts fails (its first create gets
+            // ENOSPC). The task has to try again at its next tick: one interval more is allowed
+            let failing_first = r.chance(1, 2);
+            if failing_first {
+                shim::fail(C_CREATE, F_ANY, 0, libc::ENOSPC);
+                out.count("scenarios_whose_first_background_pass_fails", 1);
+            }
+            let bound_ms = if failing_first { 2 * max_sleep_ms + 3000 } else { max_sleep_ms + 3000 };
             let deadline = Instant::now() + Duration::from_millis(bound_ms);
             let mut seen: Option<u64> = None;
             while Instant::now() < deadline {
@@ -219,9 +226,11 @@ fn scenario(ctx: &Ctx, case: u64, out: &mut Out) {
                     out.class(format!("{}-i{}-j{}", kind, interval / 50, jitter));
                 }
                 None => {
-                    out.violation(&format!("no-merge-{}", kind), format!("case {} ({}): interval {} ms, jitter {}: no merge pass ran within {} ms after the trigger was crossed (dead bytes {} vs trigger {}, 1 dead of 3 entries vs fragmentation trigger {})", case, kind, interval, jitter, bound_ms, dead_len, conf.trig_dead, conf.trig_frag), ctx.replay(case, json!({"kind": kind})));
+                    let kind_sig = if failing_first { format!("{}-after-a-failed-pass", kind) } else { kind.to_string() };
+                    out.violation(&format!("no-merge-{}", kind_sig), format!("case {} ({}): interval {} ms, jitter {}: no merge pass ran within {} ms after the trigger was crossed (dead bytes {} vs trigger {}, 1 dead of 3 entries vs fragmentation trigger {})", case, kind, interval, jitter, bound_ms, dead_len, conf.trig_dead, conf.trig_frag), ctx.replay(case, json!({"kind": kind})));
                 }
             }
+            shim::fail_off();
             let _ = mark_seq;
         }
         _ => {
@@ -231,7 +240,14 @@ fn scenario(ctx: &Ctx, case: u64, out: &mut Out) {
                 _ => 100,
             };
             let t_open = t_cross;
-            std::thread::sleep(Duration::from_millis(8 * si + 200));
+            // half of these: the first periodic fsync fails (EIO); the task has to go on syncing
+            let failing_first = r.chance(1, 2);
+            if failing_first {
+                shim::fail(C_FSYNC, F_DATA, 0, libc::EIO);
+                out.count("scenarios_whose_first_periodic_sync_fails", 1);
+            }
+            std::thread::sleep(Duration::from_millis(8 * si + if failing_first { 2500 } else { 200 }));
+            shim::fail_off();
             let t_close = unsafe {
                 let mut ts: libc::timespec = std::mem::zeroed();
                 libc::clock_gettime(libc::CLOCK_MONOTONIC, &mut ts);
